@@ -97,13 +97,9 @@ func funcRound(v []data.Value) data.Value {
 
 func round(x float64, prec int) float64 {
 	pow := math.Pow(10, float64(prec))
-	intermed := x * pow
-	if intermed < 0.0 {
-		intermed -= 0.5
-	} else {
-		intermed += 0.5
-	}
-	return float64(int64(intermed)) / float64(pow)
+	// (math.Round rounds halves away from zero exactly; adding 0.5 and
+	// truncating is off by one for 0.49999999999999994 and above 2^52.)
+	return math.Round(x*pow) / pow
 }
 
 func funcFloor(v []data.Value) data.Value {
